@@ -2,7 +2,13 @@
 
 Three kinds of scenario:
   seq    an in-process history (<= 4 operations out of to_xmi, to_json, typesystem.to_xml, select(T), select_all, typecheck)
-         on one CAS (views may hold their sofa data in a uima.cas.ByteArray, with or without an id); compared with the Coq model (coq/Determinism.v `run`) step by step and judged by the oracle;
+         on one CAS (views may hold their sofa data in a uima.cas.ByteArray, with or without an id), every operation called
+         through one of the handles of the CAS (the Cas objects returned by Cas() / create_view and by get_view, `via`), the
+         canonical queries asked through every handle after every step; optionally an edit between two operations (`edit`:
+         document text of views replaced or set for the first time, primitive feature values and mime types changed) after
+         which the later documents and answers must be those of an identically built and edited CAS (own type system) on
+         which nothing was called before; compared with the Coq model (coq/Determinism.v `hrun`) step by step and judged
+         by the oracle;
   emit   one CAS with all ids present: the emitted orders (XMI structures / namespaces / members, JSON types / structures /
          members, type-system XML names) against the model's emit pipelines on inputs given in a different order;
   bytes  (only produced by `extra_checks`, and re-run by --replay) the subprocess oracle: the same scenario serialised in
@@ -40,7 +46,16 @@ RULE = (
     "oracle): 40 / 300 such CASes x PYTHONHASHSEED in {0,1,2,random} / {0..5,random,random} x 3 sinks x 2 XMI + 7 JSON option "
     "combinations + type systems built through the API, reloaded from XML (also with three redeclared predefined types), "
     "reconstructed from JSON (FULL, MINIMAL) and merged. A seq case is non-trivial when a save in it assigns an id or two "
-    "documents of one format are written; an emit case when >= 3 structures and >= 4 types are written."
+    "documents of one format are written; an emit case when >= 3 structures and >= 4 types are written. "
+    "Handles: every CAS has two handles per view (the object it was built through and one from get_view); every operation of "
+    "a seq history is called through a randomly chosen one (a secondary view's with probability >= 1/2 when there is one; the "
+    "exhaustively explored CASes have >= 2 views) and select_all / select(T) / get_sofa are asked through every handle after "
+    "every step. Edits: in half of the random histories the CAS is edited between two operations (at least one document is "
+    "written before and one after): per view with probability 0.7 the text is replaced by one of at least the same length in "
+    "which each character switches between BMP and supplementary with probability 1/2 (in 1 of 6 the view had no text at all "
+    "until then, the annotations already carrying their offsets), primitive feature values and mime types change with "
+    "probability 0.4 each; the same scenario with the ids of that moment is built a second time with a type system of its own, "
+    "edited, and asked for the same later operations as long as they have nothing to number."
 )
 TRUSTED = [
     "Coq 8.16.1 kernel and vm_compute; theorems in Props/C14.v are closed under the global context",
@@ -56,6 +71,9 @@ TRUSTED = [
     "duplicate-id detection in _find_all_fs is not modelled: under the premises (ids distinct and below the generator's "
     "next id, or all present) C14_save_ids_fresh_distinct shows it is unreachable",
     "documents are parsed with the standard library (xml.etree, json) to observe the emitted order; digests are sha256",
+    "an edit between two operations changes nothing the model knows (labels, ids, traversals, index membership); the model "
+    "runs the whole history, digest classes are counted per segment; that the documents after the edit are those of a CAS "
+    "never serialised before is a differential observation (second build of the scenario), not modelled",
 ]
 ASSUMPTIONS = [
     "every structure a format writes separately has an id, or ids are assigned in the order the implementation is seen to "
@@ -63,6 +81,8 @@ ASSUMPTIONS = [
     "explicit ids do not collide with ids the generator will hand out (ids below next, or nothing left to assign)",
     "sofa data arrays (Sofa.sofaArray) are uima.cas.ByteArray objects set through view.sofa_array; the largest explicit id "
     "of a CAS that also has id-less structures belongs to an indexed structure (so that the generator is ahead of it)",
+    "edits between operations keep index membership, references and ids (text, mime type, primitive features other than "
+    "begin/end); a replaced text is at least as long as the one before, so offsets stay inside it",
 ]
 
 OPS = ["xmi", "json", "tsxml", "select", "select_all", "typecheck"]
@@ -266,6 +286,53 @@ def _queries(views, qtype):
     return [sorted(x.xmiID for x in v.select_all()) for v in views] + [sorted(x.xmiID for x in v.select(qtype)) for v in views]
 
 
+def _handles(cas, views, cspec):
+    """Two handles per view: the Cas object the view was built through (Cas() / create_view) and one from get_view."""
+    return list(views) + [cas.get_view(v["name"]) for v in cspec["views"]]
+
+
+def _cur(handles, cspec):
+    """Per handle the index of the view it points at, asked through the handle (-1: none of the scenario's views)."""
+    names = [v["name"] for v in cspec["views"]]
+    out = []
+    for h in handles:
+        n = h.get_sofa().sofaID
+        out.append(names.index(n) if n in names else -1)
+    return out
+
+
+def _apply_edit(edit, views, objs):
+    for vi, cps in edit.get("text", []):
+        views[vi].sofa_string = "".join(chr(c) for c in cps)
+    for vi, m in edit.get("mime", []):
+        views[vi].sofa_mime = m
+    for lab, pn, v in edit.get("feat", []):
+        setattr(objs[lab], pn, scen.unfl(v["f"]) if "f" in v else next(iter(v.values())))
+
+
+def _do(op, h, ts, qtype):
+    """One operation of a history through handle h -> (document text or None, typecheck errors or None)."""
+    if op == "xmi":
+        return h.to_xmi(), None
+    if op == "json":
+        return h.to_json(), None
+    if op == "tsxml":
+        return ts.to_xml(), None
+    if op == "select":
+        list(h.select(qtype))
+        return None, None
+    if op == "select_all":
+        list(h.select_all())
+        return None, None
+    if op == "typecheck":
+        return None, h.typecheck()
+    raise ValueError(op)
+
+
+def _u16(cps, i):
+    return i + sum(1 for c in (cps or [])[:i] if c >= 0x10000)
+
+
 def _expected_next(sc):
     """The generator's next id after the CAS was built, from the scenario: sofas take 1..n; Cas.add hands an id-less
     structure the next id and reserves an explicit one (the generator then continues above it)."""
@@ -294,20 +361,49 @@ def run_impl(cassis, sc):
 
 def _run_seq(cassis, sc):
     ts, cas, views, objs = _build(cassis, sc)
+    cs = sc["cspec"]
+    handles = _handles(cas, views, cs)
+    via = sc.get("via") or [0] * len(sc["ops"])
+    edit = sc.get("edit")
     labs = sorted(objs)
     assert labs == list(range(1, len(labs) + 1))
     lab_of = {id(fs): l for l, fs in objs.items()}
     X = sorted(lab_of[id(x)] for x in reach(cas, "xmi") if id(x) in lab_of)
     J = sorted(lab_of[id(x)] for x in reach(cas, "json") if id(x) in lab_of)
     A = _arrays(sc)
+    needs = {"xmi": set(X) | set(A), "json": set(J) | set(A), "typecheck": set(X)}
     ids0 = [objs[l].xmiID for l in labs]
-    q0 = _queries(views, sc["qtype"])
+    q0 = _queries(handles, sc["qtype"])
+    cur0 = _cur(handles, cs)
     fp0 = _fingerprint(ts, objs, lab_of, views)
     steps = []
-    for op in sc["ops"]:
-        st = {"op": op, "doc": None, "digest": None, "tc": None}
+    ed = None
+    twin = None
+    for k, op in enumerate(sc["ops"]):
+        if edit is not None and k == edit["at"]:
+            # the edit, and the same scenario (with the ids of this moment) built once more, with a type system of its own,
+            # and edited in the same way: a CAS with the same content on which nothing has been called
+            _apply_edit(edit, views, objs)
+            ids_at = [objs[l].xmiID for l in labs]
+            ed = {"ids": ids_at, "fp": _fingerprint(ts, objs, lab_of, views), "queries": _queries(handles, sc["qtype"]),
+                  "cur": _cur(handles, cs)}
+            cs2 = json.loads(json.dumps(cs))
+            for o in cs2["objs"]:
+                o["id"] = ids_at[o["o"] - 1]
+            ts2 = scen.build_ts(cassis, sc["tspec"])
+            cas2, views2, objs2 = scen.build_cas(cassis, ts2, cs2)
+            c14_driver.set_sofa_arrays(cs2, views2, objs2)
+            handles2 = _handles(cas2, views2, cs2)
+            _apply_edit(edit, views2, objs2)
+            lab_of2 = {id(fs): l for l, fs in objs2.items()}
+            twin = {"ts": ts2, "handles": handles2, "objs": objs2, "alive": True}
+            ed["twin_ids"] = [objs2[l].xmiID for l in labs]
+            ed["twin_fp"] = _fingerprint(ts2, objs2, lab_of2, views2)
+            ed["twin_queries"] = _queries(handles2, sc["qtype"])
+        st = {"op": op, "via": via[k], "doc": None, "digest": None, "tc": None, "tw": None}
+        h = handles[via[k]]
+        text, errs = _do(op, h, ts, sc["qtype"])
         if op in ("xmi", "json"):
-            text = cas.to_xmi() if op == "xmi" else cas.to_json()
             st["digest"] = hashlib.sha256(text.encode("utf-8")).hexdigest()[:20]
             if op == "xmi":
                 pfs, _nss, psofas, _pviews = _parse_xmi(text)
@@ -316,7 +412,7 @@ def _run_seq(cassis, sc):
             else:
                 entries = _parse_json(text)[0]
                 doc_ids = [i for i, t in entries if t != "uima.cas.Sofa"]
-                last = max(k for k, (_i, t) in enumerate(entries) if t == "uima.cas.Sofa")
+                last = max(k2 for k2, (_i, t) in enumerate(entries) if t == "uima.cas.Sofa")
                 # the leading part: per view the byte array holding the sofa data (if any), then the sofa
                 st["head"] = [["sofa" if t == "uima.cas.Sofa" else "fs", i] for i, t in entries[:last + 1]]
                 st["sofa_arr"] = _json_sofa_arrays(text)
@@ -326,26 +422,38 @@ def _run_seq(cassis, sc):
             st["doc_ids"] = doc_ids
             st["doc"] = [by_id.get(i, 0) for i in doc_ids]
         elif op == "tsxml":
-            st["digest"] = hashlib.sha256(ts.to_xml().encode("utf-8")).hexdigest()[:20]
-        elif op == "select":
-            st["res"] = sorted(x.xmiID for x in cas.select(sc["qtype"]))
-        elif op == "select_all":
-            st["res"] = sorted(x.xmiID for x in cas.select_all())
+            st["digest"] = hashlib.sha256(text.encode("utf-8")).hexdigest()[:20]
         elif op == "typecheck":
-            errs = cas.typecheck()
             by_id = {objs[l].xmiID: l for l in labs}
             st["tc"] = sorted((by_id.get(e.xmiID, 0), str(e.description)) for e in errs)
         st["ids"] = [objs[l].xmiID for l in labs]
-        st["queries"] = _queries(views, sc["qtype"])
+        st["queries"] = _queries(handles, sc["qtype"])
+        st["cur"] = _cur(handles, cs)
         st["fp"] = _fingerprint(ts, objs, lab_of, views)
+        if twin is not None and twin["alive"]:
+            # the same operation on the second CAS, as long as it has nothing to number there (ids it would hand out come
+            # from a generator in another state: not comparable)
+            o2 = twin["objs"]
+            if any(o2[l].xmiID is None for l in needs.get(op, ())):
+                twin["alive"] = False
+            else:
+                t2, e2 = _do(op, twin["handles"][via[k]], twin["ts"], sc["qtype"])
+                tw = {"ids": [o2[l].xmiID for l in labs], "queries": _queries(twin["handles"], sc["qtype"]), "digest": None, "tc": None}
+                if t2 is not None:
+                    tw["digest"] = hashlib.sha256(t2.encode("utf-8")).hexdigest()[:20]
+                if e2 is not None:
+                    by_id2 = {o2[l].xmiID: l for l in labs}
+                    tw["tc"] = sorted((by_id2.get(e.xmiID, 0), str(e.description)) for e in e2)
+                st["tw"] = tw
         steps.append(st)
     final = {l: objs[l].xmiID for l in labs}
 
     def order(ls):
         return sorted(ls, key=lambda l: (final[l] is None, final[l] if final[l] is not None else 0, l))
 
-    return {"X": X, "J": J, "A": A, "tx": order(X), "tj": order(J), "ids0": ids0, "q0": q0, "fp0": fp0, "steps": steps,
-            "next": _expected_next(sc), "qlabels": _query_labels(cassis, sc)}
+    ql = _query_labels(cassis, sc)
+    return {"X": X, "J": J, "A": A, "tx": order(X), "tj": order(J), "ids0": ids0, "q0": q0, "cur0": cur0, "fp0": fp0,
+            "steps": steps, "edit": ed, "next": _expected_next(sc), "qlabels": ql}
 
 
 REDECL = c14_driver.REDECL
@@ -533,8 +641,28 @@ def oracle(cassis, sc, obs):
     prev = obs["ids0"]
     digests = {}
     tcs = []
+    nv = len(sc["cspec"]["views"])
+    cur_want = [i % nv for i in range(2 * nv)]       # handles: one per view from building the CAS, one per view from get_view
+    if obs["cur0"] != cur_want:
+        return "handle: before the history the handles point at views %s, expected %s" % (obs["cur0"], cur_want)
+    edit, ed = sc.get("edit"), obs.get("edit")
+    fp_want = obs["fp0"]
     for k, st in enumerate(obs["steps"]):
         op = st["op"]
+        if edit is not None and k == edit["at"]:
+            # the edit itself: ids, index membership and handles as before; the content is that of a CAS built and edited in the
+            # same way on which nothing was called before.  Documents written from here on are compared among themselves.
+            if ed["ids"] != prev or ed["twin_ids"] != prev:
+                return "edit: ids %s before, %s after the edit (second CAS %s)" % (prev, ed["ids"], ed["twin_ids"])
+            if ed["cur"] != cur_want:
+                return "handle: after the edit in front of step %d the handles point at views %s, expected %s" % (k, ed["cur"], cur_want)
+            if ed["queries"] != obs["q0"] or ed["twin_queries"] != obs["q0"]:
+                return "queries: after the edit in front of step %d select/select_all return %s, before the history %s" % (k, ed["queries"], obs["q0"])
+            if ed["fp"] != ed["twin_fp"]:
+                return ("earlier: the edit in front of step %d (after %s) left the CAS with other content than the same edit of "
+                        "an identically built CAS on which nothing was called before" % (k, "/".join(sc["ops"][:k])))
+            fp_want = ed["fp"]
+            digests = {}
         may = {"xmi": X | set(A), "typecheck": X, "json": J | set(A)}.get(op, set())
         new = []
         for l, (a, b) in enumerate(zip(prev, st["ids"]), 1):
@@ -575,10 +703,25 @@ def oracle(cassis, sc, obs):
             if op in digests and digests[op][1] != st["digest"]:
                 return "repeat: the %s document of step %d differs from the one of step %d" % (op, k, digests[op][0])
             digests.setdefault(op, (k, st["digest"]))
+        if st["cur"] != cur_want:
+            return "handle: after step %d (%s through handle %d) the handles point at views %s, expected %s" % (k, op, st["via"], st["cur"], cur_want)
         if st["queries"] != obs["q0"]:
-            return "queries: after step %d (%s) select/select_all return %s, before the history %s" % (k, op, st["queries"], obs["q0"])
-        if st["fp"] != obs["fp0"]:
+            return "queries: after step %d (%s through handle %d) select/select_all through the handles return %s, before the history %s" % (
+                k, op, st["via"], st["queries"], obs["q0"])
+        if st["fp"] != fp_want:
             return "content: step %d (%s) changed feature values of the CAS" % (k, op)
+        tw = st.get("tw")
+        if tw is not None:
+            # an identically built and edited CAS on which nothing was called before the edit, asked the same
+            if tw["ids"] != st["ids"]:
+                return "earlier: step %d (%s) leaves ids %s, on the CAS not used before the edit %s" % (k, op, st["ids"], tw["ids"])
+            if tw["digest"] != st["digest"]:
+                return ("earlier: the %s document of step %d differs from the one an identically built and edited CAS returns on "
+                        "which nothing was called before the edit (here: %s)" % (op, k, "/".join(sc["ops"][:edit["at"]])))
+            if tw["queries"] != st["queries"]:
+                return "earlier: after step %d (%s) the queries return %s, on the CAS not used before the edit %s" % (k, op, st["queries"], tw["queries"])
+            if tw["tc"] != st["tc"]:
+                return "earlier: typecheck of step %d reports %s, on the CAS not used before the edit %s" % (k, st["tc"], tw["tc"])
         if st["tc"] is not None:
             tcs.append(st["tc"])
         prev = st["ids"]
@@ -658,10 +801,17 @@ def render(sc, obs):
     if sc["kind"] == "emit":
         return _render_emit(sc, obs)
     steps = []
-    prev_ids, prev_q = obs["ids0"], obs["q0"]
+    nv = len(sc["cspec"]["views"])
+    prev_ids, prev_q, prev_c = obs["ids0"], obs["q0"], [i % nv for i in range(2 * nv)]
     docs = []
     first = {}
+    cut = sc["edit"]["at"] if sc.get("edit") else len(sc["ops"])
+    via = sc.get("via") or [0] * len(sc["ops"])
+    if any(c < 0 for st in obs["steps"] for c in st["cur"]) or any(c < 0 for c in obs["cur0"]):
+        return None  # a handle points at no view of the scenario: the oracle has reported it
     for k, st in enumerate(obs["steps"]):
+        if k == cut:
+            first = {}
         delta = [(l, b) for l, (a, b) in enumerate(zip(prev_ids, st["ids"]), 1) if a != b]
         if any(b is None for _l, b in delta):
             return None  # an id was removed: outside what a case can express; the oracle has reported it
@@ -677,12 +827,15 @@ def render(sc, obs):
         else:
             cls = -1
         q = "None" if st["queries"] == prev_q else "(Some %s)" % zll(st["queries"])
-        steps.append("mkObs [%s] (%s) %s %s" % (";".join("(%s,%s)" % (z(l), z(b)) for l, b in delta), d, z(cls), q))
-        prev_ids, prev_q = st["ids"], st["queries"]
+        c = "None" if st["cur"] == prev_c else "(Some %s)" % zl(st["cur"])
+        steps.append("mkObs [%s] (%s) %s %s %s" % (";".join("(%s,%s)" % (z(l), z(b)) for l, b in delta), d, z(cls), q, c))
+        prev_ids, prev_q, prev_c = st["ids"], st["queries"], st["cur"]
     ids = [(-1 if i is None else i) for i in obs["ids0"]]
-    return "CSeq %s %s %s %s %s %s %s %s\n  %s" % (
-        zl(ids), z(obs["next"]), zl(obs["A"]), zl(obs["tx"]), zl(obs["tj"]), zll(obs["qlabels"]), zll(obs["q0"]),
-        glist([GOP[o] for o in sc["ops"]]), glist(steps, ";\n   "))
+    ql = obs["qlabels"]
+    return "CSeq %s %s %s %s %s %s %s %s %s %s %s\n  %s" % (
+        zl(ids), z(obs["next"]), zl(obs["A"]), zl(obs["tx"]), zl(obs["tj"]), zl([i % nv for i in range(2 * nv)]),
+        zll(ql[:nv]), zll(ql[nv:]), zll(obs["q0"]), z(cut),
+        glist(["(%s,%s)" % (z(h), GOP[o]) for h, o in zip(via, sc["ops"])]), glist(steps, ";\n   "))
 
 
 def _render_emit(sc, obs):
@@ -755,6 +908,81 @@ def _gen_cas(rng, cassis, all_ids, n_objs=(3, 8), arrays=0.3, settled=False):
     return {"tspec": tspec, "cspec": cspec, "qtype": qtype}
 
 
+def _gen_via(rng, base, n):
+    """Per operation the handle it is called through: 0..nv-1 the objects the views were built through (0 = the Cas object
+    itself), nv..2nv-1 those get_view returns; with a second view at least every other operation goes through a handle of a
+    view other than the initial one."""
+    nv = len(base["cspec"]["views"])
+    out = []
+    for _ in range(n):
+        if nv > 1 and rng.random() < 0.5:
+            out.append(rng.choice([h for h in range(2 * nv) if h % nv != 0]))
+        else:
+            out.append(rng.randrange(2 * nv))
+    return out
+
+
+ASTRAL = [0x1F600, 0x10000, 0x10FFFF, 0x1F1E9]
+BMP = [0x62, 0xE9, 0x4E2D, 0x20, 0xFFFD]
+
+
+def _flip_text(rng, old):
+    """A text at least as long as `old` (code points) in which each character switches between BMP and supplementary with
+    probability 1/2: the UTF-16 offsets of what follows move, the code point offsets do not."""
+    old = list(old or [])
+    n = max(len(old), rng.choice([0, 3, 6]))
+    for _try in range(20):
+        out = []
+        for i in range(n):
+            c = old[i] if i < len(old) else 0x61
+            if rng.random() < 0.5:
+                out.append(c)
+            else:
+                out.append(rng.choice(BMP) if c >= 0x10000 else rng.choice(ASTRAL))
+        if out != old:
+            break
+    return out
+
+
+def _gen_edit(rng, cassis, base, n_ops):
+    """-> (cspec, edit).  The edit happens in front of operation `at` (1 <= at < n_ops).  In one of six a view with text and
+    annotations starts without any text (the annotations carry their offsets already) and gets it only by the edit."""
+    cs = json.loads(json.dumps(base["cspec"]))
+    edit = {"at": rng.randrange(1, n_ops), "text": [], "mime": [], "feat": []}
+    late = None
+    if rng.random() < 1 / 6:
+        c = [i for i, v in enumerate(cs["views"]) if v.get("text")]
+        if c:
+            late = rng.choice(c)
+    for vi, v in enumerate(cs["views"]):
+        if vi == late:
+            old = v["text"]
+            v["text"] = None
+            v.pop("text0", None)
+            edit["text"].append([vi, old if rng.random() < 0.5 else _flip_text(rng, old)])
+        elif rng.random() < 0.7:
+            edit["text"].append([vi, _flip_text(rng, v.get("text"))])
+        if rng.random() < 0.4:
+            edit["mime"].append([vi, rng.choice(["text/plain", "text/html", "application/x-c14"])])
+    if not edit["text"]:
+        vi = rng.randrange(len(cs["views"]))
+        edit["text"].append([vi, _flip_text(rng, cs["views"][vi].get("text"))])
+    schema = scen.schema_of(cassis, base["tspec"])
+    for o in cs["objs"]:
+        if o["type"] not in schema:
+            continue
+        for pn, _xn, rng_t, _el, _multi in schema[o["type"]]["feats"]:
+            if pn in ("sofa", "begin", "end") or pn not in o["slots"] or rng.random() >= 0.4:
+                continue
+            prim = next((a for a in ([rng_t] + schema.get(rng_t, {"anc": []})["anc"]) if a in scen.PRIMS), None)
+            if prim and o["slots"][pn] is not None and not ({"ref", "list", "sofa"} & set(o["slots"][pn])):
+                edit["feat"].append([o["o"], pn, scen.rval(rng, scen.PRIMS[prim])])
+    return cs, edit
+
+
+DOC_OPS = ("xmi", "json")
+
+
 def _all_histories():
     out = []
     for n in (1, 2, 3):
@@ -779,6 +1007,11 @@ def _interesting(cassis, base):
     return any(objs[l].xmiID is None for l in X) and len(J) > len(X) and _lone_idless_array(cassis, base)
 
 
+def _second_view_in_use(base):
+    """At least two views, and a view other than the initial one has members."""
+    return len(base["cspec"]["views"]) > 1 and any(vi > 0 for vi, _l in base["cspec"]["members"])
+
+
 def generate(rng, tier):
     import sys
     cassis = sys.modules.get("cassis") or core.load_impl()
@@ -789,15 +1022,25 @@ def generate(rng, tier):
         all_ids = k % 2 == 1
         for _try in range(400):
             base = _gen_cas(rng, cassis, all_ids=all_ids, n_objs=(3, 6), arrays=0.5)
-            if _lone_idless_array(cassis, base) if all_ids else _interesting(cassis, base):
+            if _second_view_in_use(base) and (_lone_idless_array(cassis, base) if all_ids else _interesting(cassis, base)):
                 break
         for ops in _all_histories():
-            yield dict(base, kind="seq", ops=ops)
+            yield dict(base, kind="seq", ops=ops, via=_gen_via(rng, base, len(ops)))
     for k in range(n_rand):
         base = _gen_cas(rng, cassis, all_ids=(k % 2 == 1), n_objs=(2, 8))
-        for _ in range(per):
+        for j in range(per):
             ops = [rng.choice(OPS + ["xmi", "json"]) for _ in range(4)]
-            yield dict(base, kind="seq", ops=ops)
+            sc = dict(base, kind="seq", ops=ops, via=_gen_via(rng, base, len(ops)))
+            if j % 2 == 1:
+                # an edit between two operations, a document written before it and one after it
+                cs, edit = _gen_edit(rng, cassis, base, len(ops))
+                at = edit["at"]
+                if not any(o in DOC_OPS for o in ops[:at]):
+                    ops[rng.randrange(at)] = rng.choice(DOC_OPS)
+                if not any(o in DOC_OPS for o in ops[at:]):
+                    ops[rng.randrange(at, len(ops))] = rng.choice(DOC_OPS)
+                sc.update(cspec=cs, edit=edit)
+            yield sc
     for _ in range(n_emit):
         base = _gen_cas(rng, cassis, all_ids=True, n_objs=(3, 12), settled=True)
         yield dict(base, kind="emit")
@@ -807,6 +1050,8 @@ def nontrivial(sc):
     if sc["kind"] == "seq":
         docs = [o for o in sc["ops"] if o in ("xmi", "json")]
         idless = any(o.get("id") is None for o in sc["cspec"]["objs"])
+        if sc.get("edit") and any(o in DOC_OPS for o in sc["ops"][:sc["edit"]["at"]]) and any(o in DOC_OPS for o in sc["ops"][sc["edit"]["at"]:]):
+            return True
         return (idless and any(o in ("xmi", "json", "typecheck") for o in sc["ops"])) or len(docs) != len(set(docs))
     return len(sc["cspec"]["objs"]) >= 3 and len(sc["tspec"]) >= 4
 
@@ -827,9 +1072,22 @@ def shrink_candidates(sc):
 def _shrink_candidates(sc):
     if sc["kind"] == "seq":
         ops = sc["ops"]
+        via = sc.get("via") or [0] * len(ops)
+        edit = sc.get("edit")
         for i in range(len(ops)):
             if len(ops) > 1:
-                yield dict(sc, ops=ops[:i] + ops[i + 1:])
+                c = dict(sc, ops=ops[:i] + ops[i + 1:], via=via[:i] + via[i + 1:])
+                if edit:
+                    at = edit["at"] - 1 if i < edit["at"] else edit["at"]
+                    c["edit"] = dict(edit, at=at) if 0 < at < len(c["ops"]) else None
+                yield c
+        for i in range(len(ops)):
+            if via[i] != 0:
+                yield dict(sc, via=via[:i] + [0] + via[i + 1:])
+        if edit:
+            for key in ("text", "mime", "feat"):
+                for i in range(len(edit[key])):
+                    yield dict(sc, edit=dict(edit, **{key: edit[key][:i] + edit[key][i + 1:]}))
     cs = sc["cspec"]
     # drop members, then unreferenced objects are harmless to keep: labels must stay 1..n
     for i in range(len(cs["members"])):
@@ -850,7 +1108,11 @@ def mutate(sc, rng):
     if sc["kind"] != "seq":
         return
     for _ in range(20):
-        yield dict(sc, ops=[rng.choice(OPS) for _ in range(rng.randint(1, 4))])
+        ops = [rng.choice(OPS) for _ in range(rng.randint(1, 4))]
+        c = dict(sc, ops=ops, via=_gen_via(rng, sc, len(ops)))
+        if c.get("edit"):
+            c["edit"] = dict(c["edit"], at=rng.randrange(1, len(ops))) if len(ops) > 1 else None
+        yield c
 
 
 def signature(sc, msg):
@@ -873,9 +1135,37 @@ def distribution(scenarios, observations):
             "seq_json_reaches_more_than_xmi": sum(1 for _s, o in seq if len(o["J"]) > len(o["X"])),
             "seq_two_documents_of_one_format": sum(1 for s, _o in seq if len([x for x in s["ops"] if x in ("xmi", "json")])
                                                    != len({x for x in s["ops"] if x in ("xmi", "json")})),
+            "seq_operation_through_handle_of_second_view": sum(
+                1 for s, _o in seq if any(h % len(s["cspec"]["views"]) != 0 for h in s.get("via") or [])),
+            "seq_document_or_typecheck_through_handle_of_second_view": sum(
+                1 for s, _o in seq if any(h % len(s["cspec"]["views"]) != 0 and op in ("xmi", "json", "typecheck")
+                                          for h, op in zip(s.get("via") or [], s["ops"]))),
+            "seq_with_edit": sum(1 for s, _o in seq if s.get("edit")),
+            "seq_edit_first_text_of_a_view": sum(1 for s, _o in seq if s.get("edit") and any(
+                s["cspec"]["views"][vi].get("text") is None for vi, _t in s["edit"]["text"])),
+            "seq_edit_moves_utf16_offset_of_written_annotation": sum(1 for s, o in seq if _edit_moves_offsets(s, o)),
+            "seq_documents_compared_with_unused_cas": sum(
+                1 for _s, o in seq for st in o["steps"] if st.get("tw") and st["tw"]["digest"] and st["op"] in DOC_OPS),
             "by_first_op": {op: sum(1 for s, _o in seq if s["ops"][0] == op) for op in OPS},
             "emit_max_structures": max([len(o["found_j"]) for _s, o in emit] or [0]),
             "emit_namespaces_max": max([len(o["x_ns"]) for _s, o in emit] or [0])}
+
+
+def _edit_moves_offsets(sc, obs):
+    """The edit replaces the text of a view so that begin or end of an annotation a format writes gets another UTF-16 offset."""
+    if not sc.get("edit"):
+        return False
+    cs = sc["cspec"]
+    new = {cs["views"][vi]["name"]: (cs["views"][vi].get("text"), t) for vi, t in sc["edit"]["text"]}
+    for o in cs["objs"]:
+        sl = o["slots"]
+        if o["o"] in obs["J"] and (sl.get("sofa") or {}).get("sofa") in new:
+            old, t = new[sl["sofa"]["sofa"]]
+            for k in ("begin", "end"):
+                i = (sl.get(k) or {}).get("i")
+                if isinstance(i, int) and (_u16(old, i) if old is not None else i) != _u16(t, i):
+                    return True
+    return False
 
 
 MANIFEST = {
@@ -884,9 +1174,9 @@ MANIFEST = {
                   "is followed by a stable sort on a unique key (sort_unique for Z and string keys, emit_order_independent for XMI, "
                   "JSON, type-system XML); a save only adds generator-fresh, pairwise distinct ids to id-less structures, is "
                   "idempotent, and along every history of to_xmi/to_json/to_xml/select/select_all/typecheck all documents of one "
-                  "format are equal, each lists every byte array holding sofa data exactly once, and queries answer the same. The model is tied to /repo on every run by evaluating it in Coq on "
+                  "format are equal, each lists every byte array holding sofa data exactly once, and queries answer the same - through whichever handle (Cas object of a view) each operation is called: no handle changes the view it points at, stores and documents do not depend on the handles used. The model is tied to /repo on every run by evaluating it in Coq on "
                   "the observed histories and emitted orders. Byte identity across processes with different PYTHONHASHSEED, across "
-                  "string / str path / Path sinks and option combinations is observed by a subprocess oracle on every run, not proved.",
+                  "string / str path / Path sinks and option combinations is observed by a subprocess oracle on every run, not proved; that documents and answers after an edit (text, mime type, primitive features) are those of an identically built and edited CAS on which nothing was called before is observed differentially on every run, not proved.",
     "level_note": "Trusted: Coq kernel + vm_compute; hand-written model coq/Determinism.v; harness (own identity-based reachability, "
                   "stdlib parsers, sha256); CPython hashing, lxml and json below the abstract documents are outside the proof. "
                   "Print Assumptions: closed under the global context.",
